@@ -142,6 +142,15 @@ class _Desugar(ast.NodeTransformer):
     #    (callbacks registered by the first statements of the block run, last registered first, however REST is left)
     def visit_With(self, n: ast.With) -> ast.AST:
         self.generic_visit(n)
+        # with contextlib.suppress(E, ...): BODY      is      try: BODY  except (E, ...): pass
+        if len(n.items) == 1 and n.items[0].optional_vars is None and isinstance(n.items[0].context_expr, ast.Call) and not n.items[0].context_expr.keywords:
+            f_ = n.items[0].context_expr.func
+            nm_ = f_.attr if isinstance(f_, ast.Attribute) else (f_.id if isinstance(f_, ast.Name) else '')
+            if nm_ == 'suppress' and n.items[0].context_expr.args and not any(isinstance(a_, ast.Starred) for a_ in n.items[0].context_expr.args):
+                args_ = n.items[0].context_expr.args
+                typ = args_[0] if len(args_) == 1 else ast.Tuple(elts=list(args_), ctx=ast.Load())
+                h_ = ast.ExceptHandler(type=typ, name=None, body=[ast.Pass()])
+                return self._loc(ast.Try(body=n.body, handlers=[h_], orelse=[], finalbody=[]), n)
         if len(n.items) == 1 and isinstance(n.items[0].context_expr, ast.Call) and isinstance(n.items[0].optional_vars, ast.Name) and not n.items[0].context_expr.args:
             fn_ = n.items[0].context_expr.func
             nm = fn_.attr if isinstance(fn_, ast.Attribute) else (fn_.id if isinstance(fn_, ast.Name) else '')
